@@ -76,7 +76,8 @@ def decode_case(raw):
     badrule = None
     if bad[0] % 6 == 0:
         badrule = ["exclude", "include"][bad[1] % 2] + " " + BADPAT[bad[2] % len(BADPAT)]
-    return {"kind": "rules", "cfg": cfg, "rules": rl, "badrule": badrule, "tree": paths, "nohidden": bool(nohidden % 3 == 0)}
+    return {"kind": "rules", "cfg": cfg, "rules": rl, "badrule": badrule, "tree": paths, "nohidden": bool(nohidden % 3 == 0),
+            "content_sub": bool(nohidden % 2)}
 
 
 def strategy(tier):
@@ -120,11 +121,21 @@ def run_rules(case, ctx):
     rules_txt = list(case["rules"])
     cfg["rules"] = rules_txt
     cfg["nohidden"] = case["nohidden"]
-    cfg["content"] = ["par", "d1"]
+    # the second content copy lives in the root of d1 or, in half of the cases, in a sub-directory of it; stale .tmp and .lock
+    # files stand beside it before the first sync ("the tool's own content, temporary and lock files [are skipped] always")
+    cfg["content"] = ["par", "d1/own.d" if case.get("content_sub") else "d1"]
     w = World(cfg, ctx.rel)
     classes = set()
+    cpath = w.arr.content_paths()[1]
+    csub = os.path.relpath(cpath, w.arr.disk_dir("d1")).encode()
+    own_names = {csub, csub + b".tmp", csub + b".lock"}
     try:
         build_tree(w, case["tree"])
+        for ext in (".tmp", ".lock"):
+            with open(cpath + ext, "wb") as f:
+                f.write(b"stale")
+        if case.get("content_sub"):
+            classes.add("content copy in a sub-directory of a data disk")
         if case["badrule"] is not None:
             w.arr.cfg["rules"] = rules_txt + [case["badrule"]]
             w.arr.write_conf()
@@ -152,7 +163,7 @@ def run_rules(case, ctx):
             have = walk(w, dn)
             want = set()
             for sub in have:
-                if sub.startswith(b"content.") and b"/" not in sub:
+                if dn == "d1" and sub in own_names:
                     continue   # the tool's own content / tmp / lock files
                 comps = sub.split(b"/")
                 if case["nohidden"] and any(c.startswith(b".") for c in comps):
@@ -170,7 +181,7 @@ def run_rules(case, ctx):
                         nonlast = True
                         break
             got = listed.get(dn, set())
-            own = [s_ for s_ in got if s_.startswith(b"content.") and b"/" not in s_]
+            own = [s_ for s_ in got if dn == "d1" and s_ in own_names]
             if own:
                 return Outcome(ok=False, why="the tool's own file %r entered the array" % own[0])
             if got != want:
